@@ -708,6 +708,14 @@ func runC17Backoff(c *Ctx) {
 			if ok {
 				mul, _ = w.canon(bf, conv.X).(*ssa.BinOp)
 			}
+			if ok && mul == nil {
+				// the clamped value itself, without jitter: within [0, max] whatever the jitter factor
+				if cv, isCall := w.canon(bf, conv.X).(*ssa.Call); isCall && (calleeName(cv) == "math.Min" || calleeName(cv) == "builtin:min") && len(cv.Call.Args) == 2 {
+					a0, a1 := w.Expr(cv.Call.Args[0]), w.Expr(cv.Call.Args[1])
+					c.Check(strings.Contains(a1, "p0.MaxDelay") || strings.Contains(a0, "p0.MaxDelay"), "R4.backoff", "Backoff|unjittered return is the clamped value", w.Pos(r.Pos()), "math.Min(·, float64(MaxDelay)) returned as is", "a value returned without jitter is not clamped against the configured MaxDelay")
+					continue
+				}
+			}
 			if mul == nil || mul.Op != token.MUL {
 				c.Und("R4.backoff", "Backoff|jittered value shape", w.Pos(r.Pos()), "returned value is not conv(duration)(clamped * jitter): "+w.Short(lf.Val))
 				continue
